@@ -31,7 +31,7 @@ BOUNDS = [
     Bound(r'gi\.rule_infos', ['rule_count']), Bound(r'gi\.right_sides', ['rule_count', 'max_rule_element_count']),
     Bound(r'gi\.nterm_rule_slices', ['nterm_count']), Bound(r'gi\.term_precedences', ['term_count']), Bound(r'gi\.term_associativities', ['term_count']),
     Bound(r'gi\.rule_precedences', ['rule_count']), Bound(r'gi\.rule_associativities', ['rule_count']), Bound(r'gi\.rule_last_terms', ['rule_count']),
-    Bound(r'parse_table', ['state_count_cap', 'symbol_count']), Bound(r'simple_states', ['state_count_cap']), Bound(r'states', ['state_count_cap']),
+    Bound(r'parse_table', ['state_count_cap', 'symbol_count']), Bound(r'simple_states', ['state_count_cap']), Bound(r'states__all_situations_vec', ['state_count_cap']), Bound(r'states__kernel', ['state_count_cap']), Bound(r'states__situations_by_symbol', ['state_count_cap', 'symbol_count']),
     Bound(r'closures', ['situation_address_space_size']), Bound(r'right_side_slice_first', ['situation_size * rule_count']),
     Bound(r'nterm_first', ['nterm_count']),
 ]
@@ -64,18 +64,44 @@ F('stdex__sort', r'constexpr\s+Container&\s+sort\(Container& c,\s*Pred p\)', 'vo
          S(r'auto x = ', 'struct rule_info x = ', name='R6'), S(r'return c;', 'return;', name='R5:return-ref'), S(r'\bc\[', 'gi.rule_infos[', min=5, name='R5:container')])
 fns[-1].name = 'stdex__sort_rule_infos'
 
+SITVEC_OBJS = r'states__all_situations_vec\[[^\]]*\]|states__situations_by_symbol\[[^\]]*\]\[[^\]]*\]|closures\[[^\]]*\]|kernel_vec|symbol_situations|s\.all_situations_vec'
+BITSET_OBJS = r'simple_states\[[^\]]*\]|states__kernel\[[^\]]*\]|closures_analyzed|right_side_slice_empty_analyzed|right_side_slice_empty|right_side_slice_first_analyzed|nterm_empty_analyzed|nterm_empty|nterm_first_analyzed|kernel|first'
+SOA = S(r'\bstates\[([^\]]*)\]\.(all_situations_vec|kernel|situations_by_symbol)', r'states__\2[\1]', min=0, name='R3:state fields as separate arrays')
+OBJ = [SOA, sitvec_calls(SITVEC_OBJS, 'objs'), bitset_calls(BITSET_OBJS, 'objs'), 
+       S(r'\b(\w+)\.get_parse_table_idx\(\)', r'symbol__get_parse_table_idx(*\1)', min=0, name='R4:symbol.get_parse_table_idx')]
+
+F('symbol__get_parse_table_idx', r'constexpr\s+size16_t\s+get_parse_table_idx\(\)\s*const', 'size16_t symbol__get_parse_table_idx(struct symbol self)', scope=PARSER + [r'struct\s+symbol\b'],
+  rules=[S(r'parser::get_parse_table_idx\(term, idx\)', 'get_parse_table_idx(self.term, self.idx)', name='R4:members')])
+F('add_situation', r'constexpr\s+bool\s+add_situation\(size16_t state_idx,\s*size32_t sit_idx,\s*bool to_kernel\)', 'bool add_situation(size16_t state_idx, size32_t sit_idx, bool to_kernel)', scope=SA, rules=OBJ)
+
+
+def key_fragment(rx):
+    def frag(body):
+        m = re.search(rx, body)
+        if not m:
+            raise Exception('memo key expression not found')
+        return '{ return ' + m.group(1) + '; }'
+    return frag
+
+
+# fragments: the memo-key expressions of the FIRST / nullable slice memo tables (C01 memo-key/injective)
+F('vx_first_key', r'constexpr\s+const\s+term_subset&\s+make_right_side_slice_first\(const rule_info& ri,\s*size_t start\)', 'size_t vx_first_key(const struct rule_info* ri, size_t start)', scope=SA,
+  fragment=key_fragment(r'size_t right_side_slice_idx = ([^;]+);'), rules=[S(r'\bri\.', 'ri->')])
+F('vx_empty_key', r'constexpr\s+bool\s+make_right_side_slice_empty\(const rule_info& ri,\s*size_t start\)', 'size_t vx_empty_key(const struct rule_info* ri, size_t start)', scope=SA,
+  fragment=key_fragment(r'auto idx = ([^;]+);'), rules=[S(r'\bri\.', 'ri->')])
+
 PRELUDE = PC.types(4, 8, 4, 2, 4, 3) + r'''
 int vx_thrown;
 #define VX_CAP 8
 ''' + SX.cvector_struct('sitvec', 'size32_t') + SX.cbitset_struct() + r'''
-struct sa_state { struct sitvec all_situations_vec; struct cbitset kernel; struct sitvec situations_by_symbol[PH_SYMS]; };
+/* struct state { all_situations_vec; kernel; situations_by_symbol[symbol_count] } is lowered field by field (R3) */
 #define PH_SAS 64      /* physical situation address space (bits) */
 #define PH_RSS 16      /* physical size of the right-side-slice memo tables */
 /* ---- parser / state_analyzer members (R3) ---- */
 struct grammar_info gi;
 struct cbitset simple_states[PH_STATES];
 struct parse_table_entry parse_table[PH_STATES][PH_SYMS];
-struct sa_state states[PH_STATES];
+struct sitvec states__all_situations_vec[PH_STATES]; struct cbitset states__kernel[PH_STATES]; struct sitvec states__situations_by_symbol[PH_STATES][PH_SYMS];
 size16_t state_count;
 struct cbitset closures_analyzed; struct sitvec closures[PH_SAS];
 struct cbitset right_side_slice_empty_analyzed, right_side_slice_empty, right_side_slice_first_analyzed; struct cbitset right_side_slice_first[PH_RSS];
